@@ -17,9 +17,21 @@ def P(qr, qw, tr, tw, **kw):
 
 PLAN = {
     "C01": P(6000, 75, 200000, 900),
+    "C02": P(5000, 75, 150000, 900),
+    "C03": P(2000, 90, 60000, 900),
 }
 
 LEVELS = {
+    "C03": {"level": "fault_enumeration", "rule": RULE + "; the rot-enumerated scenario enumerates, per small object, every truncation length, one bit flip per byte, the deletion and every leaf-for-leaf replacement of every blob (count in probes.enumerated-corruptions)",
+            "text": "bit-rot fault injection at rest: for objects of 1..6 leaves one blob (leaf or root) is flipped, truncated, extended, deleted, swapped with another leaf of the same or another object, or the root's key list is dropped/duplicated/reordered; then the object is read through Read, ReadAt, WriteTo(plain) and WriteTo(io.WriterAt) with cold and warm caches, and through a full bundle download; any call that reports success must have delivered exactly the stored bytes. For small objects the single-blob corruption classes are enumerated completely",
+            "note": "a streaming sequential Read is judged as a whole (bytes handed out before the error of the same leaf are not counted as accepted); trusts simstore",
+            "components": {"real": ["pkg/cafs reader/hasher", "pkg/core bundle download", "pkg/storage/localfs"], "stub": STUB},
+            "assumptions": ["hash verification left at its default (on)", "one damaged blob per run"]},
+    "C02": {"level": "exploration", "rule": RULE,
+            "text": "seeded exploration of histories of overlapping Puts (identical contents, shared leaves, prefixes, swapped leaves) by 1-3 clients with 1-16 parallel flushes each into one blob bucket, under all sampled interleavings of their GetAttr/Put pairs, plus a configuration where an earlier uploader leaves torn/empty blobs; keys compared with an independent RFC 7693 BLAKE2b tree implementation (itself cross-checked against Python hashlib at setup); per-event invariant: no blob is ever written with bytes other than those its key stands for",
+            "note": "trusts the harness BLAKE2b (cross-checked against hashlib and against cafs at setup) and simstore; sampled, not exhaustive",
+            "components": {"real": ["pkg/cafs writer/hasher/check_blob"], "stub": STUB},
+            "assumptions": ["leaf sizes 64 B..64 KiB in this scenario (C01 covers the large ones)", "torn-write repair is only asserted for stores that report CRC32C (as GCS does)"]},
     "C01": {"level": "exploration", "rule": RULE,
             "components": {"real": ["pkg/cafs writer/reader/hasher/freelists/LRU/prefetch"], "stub": STUB},
             "text": "seeded exploration of (content length x leaf size x source chunking x flush concurrency x read programs x prefetch/cache settings x interleavings of leaf Gets among concurrent readers and prefetchers); every returned byte compared with the source; separate configuration with transient Get failures where a read may fail but never return other bytes",
